@@ -274,7 +274,7 @@ pub fn execute(t: &Trace, stats: &mut Stats, record: bool) -> Outcome {
     let mut tgt = match t.surface.as_str() {
         "vec" => Target::Vec(Vec::new()),
         "file" => {
-            let dir = std::path::PathBuf::from("/verif/target/tmp");
+            let dir = std::path::PathBuf::from(&format!("{}/target/tmp", crate::report::verif_root()));
             let _ = std::fs::create_dir_all(&dir);
             let p = dir.join(format!("c17-{}-{}-{}-{:?}", std::process::id(), t.seed, t.run, std::thread::current().id()));
             match std::fs::File::create(&p) {
